@@ -1,10 +1,14 @@
 PROP = {
     "id": "C46",
     "theorem_modules": ["Verif.Properties.C46"],
-    "min_theorems": 5,
+    "min_theorems": 9,
     "required_theorems": [
         "Verif.Properties.C46.rlpDecodeString_no_panic",
         "Verif.Properties.C46.rlpDecodeList_no_panic",
+        "Verif.Properties.C46.string_accepts_canonical",
+        "Verif.Properties.C46.string_rejects_rest",
+        "Verif.Properties.C46.string_accepted_size",
+        "Verif.Properties.C46.string_noncanonical_is_user_error",
     ],
     "streams": [
         {"name": "rlp", "driver": "drv_rlp",
